@@ -1870,7 +1870,8 @@ def evaluate__round(self: XPathFunction, context: ta.ContextType = None) \
     try:
         number = decimal.Decimal(arg)
         if precision >= -number.as_tuple().exponent:  # type: ignore[operator]
-            return arg  # no digit to round off
+            # no digit to round off (a value of a derived integer type gives an xs:integer)
+            return int(arg) if isinstance(arg, int) else arg
         elif precision < -400 and number and -precision > number.adjusted() + 1:
             # every digit is rounded off, also when the precision is beyond the decimal limits
             return 0 if isinstance(arg, int) else type(arg)(0) if not isinstance(arg, float) \
